@@ -304,6 +304,54 @@ def meta_rules(repo: Repo, rep, P: str):
                                       f"{kind} descriptors are collected from the class's own namespace only: classes derived from a module class get empty tables", where)
                         done = True
                     break
+            if not done:
+                # the helper takes a predicate built by a factory: _attributes(cls, _instances_of(Controller)) with
+                # def _instances_of(kind): def accepts(v): return isinstance(v, kind); return accepts
+                for c in ast.walk(fn):
+                    if not (isinstance(c, ast.Call) and isinstance(c.func, ast.Name)):
+                        continue
+                    h = next((st for st in meta.file.tree.body if isinstance(st, ast.FunctionDef) and st.name == c.func.id), None)
+                    if h is None:
+                        continue
+                    hp = [a.arg for a in h.args.args]
+                    for i_, a in enumerate(c.args):
+                        if not (isinstance(a, ast.Call) and isinstance(a.func, ast.Name) and len(a.args) == 1 and norm(a.args[0]) == kind and i_ < len(hp)):
+                            continue
+                        fac = next((st for st in meta.file.tree.body if isinstance(st, ast.FunctionDef) and st.name == a.func.id), None)
+                        if fac is None or len(fac.args.args) != 1:
+                            continue
+                        kpar = fac.args.args[0].arg
+                        inner = [st for st in fac.body if isinstance(st, ast.FunctionDef)]
+                        rets = [st for st in fac.body if isinstance(st, ast.Return)]
+                        is_pred = False
+                        if len(inner) == 1 and len(rets) == 1 and isinstance(rets[0].value, ast.Name) and rets[0].value.id == inner[0].name \
+                                and len(inner[0].args.args) == 1:
+                            vpar = inner[0].args.args[0].arg
+                            ib = [st for st in inner[0].body if not (isinstance(st, ast.Expr) and isinstance(st.value, ast.Constant))]
+                            is_pred = len(ib) == 1 and isinstance(ib[0], ast.Return) and norm(ib[0].value) == f"isinstance({vpar}, {kpar})"
+                        elif len(rets) == 1 and isinstance(rets[0].value, ast.Lambda) and len(rets[0].value.args.args) == 1:
+                            vpar = rets[0].value.args.args[0].arg
+                            is_pred = norm(rets[0].value.body) == f"isinstance({vpar}, {kpar})"
+                        if not is_pred:
+                            continue
+                        ppar = hp[i_]
+                        cpos = next((j for j, a2 in enumerate(c.args) if norm(a2) == cparam), None)
+                        hc = hp[cpos] if cpos is not None and cpos < len(hp) else None
+                        applied = [t for t in ast.walk(h) if isinstance(t, ast.Call) and isinstance(t.func, ast.Name) and t.func.id == ppar and len(t.args) == 1]
+                        src_h = " ".join(norm(n.iter) for n in ast.walk(h) if isinstance(n, (ast.For, ast.comprehension)))
+                        if hc is None or not applied:
+                            continue
+                        if f"dir({hc})" in src_h or "__mro__" in src_h or ".mro()" in src_h:
+                            rep.ok(f"{P}.meta.collect", construct, f"{kind}: {norm(c)[:80]} → {src_h[:60]}",
+                                   "collected over every name visible on the class, selected by an isinstance predicate for the kind")
+                            done = True
+                        elif "vars(" in src_h or "__dict__" in src_h:
+                            rep.violation(f"{P}.meta.collect", construct, f"{kind}: {norm(c)[:80]} → {src_h[:80]}",
+                                          f"{kind} descriptors are collected from the class's own namespace only: classes derived from a module class get empty tables", where)
+                            done = True
+                        break
+                    if done:
+                        break
             if done:
                 continue
             rep.inconclusive(f"{P}.meta.collect", construct, f"isinstance(…, {kind})", f"selection of {kind} descriptors not found", where)
